@@ -101,9 +101,35 @@ type recipe struct {
 }
 
 func (r recipe) honestShape() bool {
-	okExt := r.ExtMode == "normal" || r.ExtMode == "dup-good-first" || r.ExtMode == "critical" || r.ExtMode == "trailing"
+	// (Go's x509 parser refuses certificates with duplicate extensions, so both
+	// duplicated forms are rejected before bifrost code sees them)
+	okExt := r.ExtMode == "normal" || r.ExtMode == "critical" || r.ExtMode == "trailing"
 	return okExt && r.Signer == r.Claimed && r.Claimed >= 0 && r.Prefix == realPrefix &&
 		r.MsgCertKey == r.CertKey && r.IssuerKey == r.CertKey && !r.Expired
+}
+
+// onlyResigned: the sole deviation is that the certificate is signed by another key.
+func (r recipe) onlyResigned() bool {
+	if r.IssuerKey == r.CertKey {
+		return false
+	}
+	r2 := r
+	r2.IssuerKey = r2.CertKey
+	return r2.honestShape()
+}
+
+func forgedKey(r recipe) string {
+	if r.onlyResigned() {
+		return "non-self-signed-cert-accepted"
+	}
+	return "forged-chain-accepted"
+}
+
+func forgedKeyN(rs []recipe) string {
+	if len(rs) == 1 {
+		return forgedKey(rs[0])
+	}
+	return "forged-chain-accepted"
 }
 
 func honest(k, ck int) recipe {
@@ -226,7 +252,8 @@ func certTerm(der []byte) (term string, ok bool) {
 		}
 	}
 	_, perr := x509.MarshalPKIXPublicKey(cert.PublicKey)
-	return hx.App("mkCert", hx.Bool(verr == nil), hx.List(exts), hx.Z(ck), hx.Bool(perr == nil)), true
+	selfSigned := cert.CheckSignature(cert.SignatureAlgorithm, cert.RawTBSCertificate, cert.Signature) == nil
+	return hx.App("mkCert", hx.Bool(verr == nil), hx.List(exts), hx.Bool(selfSigned), hx.Z(ck), hx.Bool(perr == nil)), true
 }
 
 func keyIndex(pk crypto.PubKey) int {
@@ -372,7 +399,7 @@ func run(c *hx.Ctx) {
 			if obs >= 0 {
 				c.Nontrivial(fmt.Sprintf("acc%+v", recipes))
 				if !shouldAccept {
-					c.Failf("forged-chain-accepted", desc, "PubKeyFromCertChain accepted a chain that is not a single self-signed certificate with a valid key binding")
+					c.Failf(forgedKeyN(recipes), desc, "PubKeyFromCertChain accepted a chain that is not a single self-signed certificate with a valid key binding")
 				} else if int(obs) != recipes[0].Claimed {
 					c.Failf("wrong-key-returned", desc, "returned key %d, the binding is by key %d", obs, recipes[0].Claimed)
 				}
@@ -420,7 +447,7 @@ func run(c *hx.Ctx) {
 		c.Nontrivial(fmt.Sprintf("v%d%+v", exp, recipes))
 		if obs >= 0 {
 			if !shouldAccept {
-				c.Failf("forged-chain-accepted", d2, "VerifyPeerCertificate accepted a chain that is not a single self-signed certificate with a valid key binding")
+				c.Failf(forgedKeyN(recipes), d2, "VerifyPeerCertificate accepted a chain that is not a single self-signed certificate with a valid key binding")
 			} else if exp > 0 && int(obs)+1 != exp {
 				c.Failf("unexpected-peer-accepted", d2, "required peer %d, accepted peer key %d", exp, obs)
 			}
@@ -547,7 +574,11 @@ func shake(c *hx.Ctx) {
 	if obs >= 0 {
 		// the C03 statement itself
 		if !r.honestShape() || !holds {
-			c.Failf("impostor-link-established", desc, "a link was established with an endpoint that presented a forged certificate or does not hold its key")
+			key := "impostor-link-established"
+			if holds && r.onlyResigned() {
+				key = "non-self-signed-cert-accepted"
+			}
+			c.Failf(key, desc, "a link was established with an endpoint that presented a forged certificate or does not hold its key")
 		} else if int(obs) != r.Claimed+1 {
 			c.Failf("link-names-wrong-peer", desc, "link names peer %d, the certificate binding is by key %d", obs, r.Claimed)
 		} else if exp > 0 && int(obs) != exp {
